@@ -384,11 +384,33 @@ EXTRA8 = {
 }
 
 
+EXTRA9 = {
+    'C02': ' Round 13: a SYN ends the exchange of the current request also with further buffered input (C02.R22); via the call graph, '
+           'single bytes to an enhanced adapter only below 0x80 (C02.H28).',
+    'C03': ' Round 13: a SYN ends the exchange of the current request (C03.R23); a test of the receive result does not count when '
+           'the result is assigned again before the loop exit (C03.R9).',
+    'C04': ' Round 13: a SYN ends the exchange of the current request (C04.R15); the queue is searched on every pass of a waiting '
+           'remove (C04.R6).',
+    'C06': ' Round 13: the year handed to the calendar formula is the completed one (C06.R13).',
+    'C07': ' Round 13: a parsed integer is scaled in integer arithmetic only behind constant bounds (C07.R13).',
+    'C08': ' Round 13: the broadcast maximum is the start length only without the destination wildcard (C08.R13).',
+    'C09': ' Round 13: every stored part of a chain attempts the join (C09.R19).',
+    'C11': ' Round 13: the CRC functions keep no state (C11.R9).',
+    'C13': ' Round 13: a condition decodes into a stream local to the check (C13.R18).',
+    'C14': ' Round 13: every write of EnhancedDevice::send is the two-byte sequence or a byte below 0x80 (C14.R20).',
+    'C15': ' Round 13: getAnswer writes nothing but the prepared response (C15.R18).',
+    'C17': ' Round 13: a priority given by a condition without queueing is reported (C17.R7).',
+    'C18': ' Round 13: terminator searched from the beginning (C18.R21); no empty constant part in a topic template (C18.R22).',
+    'C19': ' Round 13: the dump walks the whole name index (C19.R14).',
+    'C20': ' Round 13: remove walks the whole name index (C20.R30); via the call graph, the entry resets of setState (C20.H18).',
+}
+
+
 def main():
     checks = []
     for pid in sorted(CHECKS):
         c = dict(CHECKS[pid])
-        c['text'] = c['text'] + EXTRA.get(pid, '') + EXTRA2.get(pid, '') + EXTRA3.get(pid, '') + EXTRA4.get(pid, '') + EXTRA5.get(pid, '') + EXTRA6.get(pid, '') + EXTRA7.get(pid, '') + EXTRA8.get(pid, '')
+        c['text'] = c['text'] + EXTRA.get(pid, '') + EXTRA2.get(pid, '') + EXTRA3.get(pid, '') + EXTRA4.get(pid, '') + EXTRA5.get(pid, '') + EXTRA6.get(pid, '') + EXTRA7.get(pid, '') + EXTRA8.get(pid, '') + EXTRA9.get(pid, '')
         if pid in ('C01', 'C02', 'C03', 'C05', 'C06', 'C07', 'C08', 'C09', 'C10', 'C11', 'C13', 'C14', 'C15', 'C19', 'C20'):
             c['technique'] += '; finite evaluation of inline accessors / conditions from the typed AST on enumerated model states'
         checks.append({
